@@ -564,7 +564,8 @@ def _parse_sig(t):
 def check_C16(tier, seed):
     import props, families
     ctx = Ctx("C16", tier, seed)
-    variants = [("o", {"emit_rule_reference": True}, "opt"), ("s", {"emit_rule_reference": True, "pest_optimizer": False}, "src")]
+    variants = [("o", {"emit_rule_reference": True}, "opt"), ("s", {"emit_rule_reference": True, "pest_optimizer": False}, "src"),
+                ("b", {"emit_rule_reference": True, "box_only_if_needed": True}, "opt")]      # unboxed content takes a different getter path
     famgen.sync_workspace()
     p, genbin = build_bin("genrun")
     if p.returncode != 0:
